@@ -383,7 +383,7 @@ def check_r183(fx, rep, cg):
             rep.oblige(ok, "R18.3", f"builder:{b['name']}", F.loc(b["span"]), f"ValueBuilder::{b['name']} does not pass Some(config.value_size_limit) to the value constructor")
 
 
-def check_limit_writers(fx, rep, rule=rule, limit_field="value_size_limit"):
+def check_limit_writers(fx, rep, rule="R18.3", limit_field="value_size_limit"):
     """The limit the builder reads is the field `value_size_limit` of the VM configuration. Who writes it: the struct literal
     of the default configuration and exactly one builder-style setter; setters of the configuration are injective (no two of
     them write the same field), so configuring another parameter can never change the limit."""
